@@ -84,6 +84,7 @@ type engine struct {
 	plan        sim.Plan
 	step        int
 	dead        bool
+	opShape     string
 }
 
 func (e *engine) fail(prop, monitor, sig string, detail any) {
